@@ -122,9 +122,15 @@ def mirror(c, rs, ri):
     if rs == 0 or ri == 0:
         sym = 0.0
     else:
-        prod = rs * ri
-        sq = math.sqrt(prod) if prod == prod and prod >= 0 else float("nan")
-        sym = div(c, sq)
+        # C / (sqrt(Rs) * sqrt(Ri))  (the code since fix F19; equal to the property's C / sqrt(Rs Ri) over the reals)
+        def sq(x):
+            return math.sqrt(x) if x == x and x >= 0 else float("nan")
+        a, b = sq(rs), sq(ri)
+        try:
+            den = a * b
+        except OverflowError:
+            den = float("inf")
+        sym = div(c, den)
     return sym, sig, idl
 
 
@@ -160,14 +166,14 @@ def oracle_eff(ctx, o):
         for nm, g in zip(names, got):
             if not (0 <= g <= 1 + 4e-16):
                 ctx.violation("S5", f"{nm} efficiency {g!r} outside [0,1] although coincidences <= both singles", {"kind": "eff_unit", "which": nm}, rep)
-    if regular and not in_range and rs > 0 and ri > 0:
-        # non-negative finite rates whose product Rs*Ri leaves the binary64 range: the property's formula C/sqrt(Rs*Ri) is
-        # finite, the code's value is not it (0 or inf) — a genuine, small defect of efficiencies_from_counts
+    if regular and rs > 0 and ri > 0:
+        # every triple of non-negative finite rates, including those whose PRODUCT Rs*Ri leaves binary64 (finding F19, fixed):
+        # the symmetric efficiency is C / sqrt(Rs Ri) within 4 ulp
         true_sym = float(Fraction(c) / Fraction(math.sqrt(rs))) / math.sqrt(ri) if c > 0 else 0.0
-        if finite(true_sym) and not (finite(got[0]) and abs(got[0] - true_sym) <= 1e-9 * max(true_sym, 1e-300)):
+        if finite(true_sym) and not (finite(got[0]) and abs(got[0] - true_sym) <= 4 * 2.3e-16 * max(true_sym, 5e-324)):
             rep2 = dict(rep, expected_symmetric=true_sym)
-            ctx.violation("S5", f"symmetric efficiency of the non-negative finite rates ({c:g}, {rs:g}, {ri:g}) Hz is {got[0]!r}; C/sqrt(Rs*Ri) = {true_sym!r} "
-                                f"(the product Rs*Ri over/underflows binary64)", {"kind": "efficiency_symmetric_overflow"}, rep2)
+            ctx.violation("S5", f"symmetric efficiency of the non-negative finite rates ({c:g}, {rs:g}, {ri:g}) Hz is {got[0]!r}; C/sqrt(Rs*Ri) = {true_sym!r}",
+                          {"kind": "efficiency_symmetric_overflow" if not in_range else "eff_symmetric_value"}, rep2)
 
 
 def setup_sig(s):
@@ -225,6 +231,39 @@ def classify(ctx, o, which):
     return ("singles_sqrt_branch" if fixed else "unknown"), res
 
 
+def refine(ctx, o):
+    """the three intensities of an observation re-evaluated with much finer quadratures (Simpson{2000}, GaussLegendre{300}).
+    Returns (jsi, singles_s, singles_i) of the fine Simpson rule when the two fine rules agree to 1e-2, else None."""
+    if not getattr(ctx, "binp", None):
+        return None
+    s = o["setup"]
+    tmp = os.path.join(VERIF, "evidence", "replays", f".c08-refine-{os.getpid()}.jsonl")
+    os.makedirs(os.path.dirname(tmp), exist_ok=True)
+    with open(tmp, "w") as f:
+        for name in ("simpson2000", "gl300"):
+            f.write(json.dumps({"id": name, "config": s["config"], "idler_waist_um": s["idler_waist_um"], "ws": o["ws"], "wi": o["wi"],
+                                "integrator": name, "setup": s}) + "\n")
+    vals = {}
+    try:
+        r = subprocess.run([ctx.binp, "c08", "corpus", tmp], capture_output=True, text=True, timeout=600)
+        for line in r.stdout.splitlines():
+            if line.startswith("{"):
+                x = json.loads(line)
+                if x.get("kind") == "pw":
+                    vals[x["tag"].split(":")[1]] = (fh(x["jsi"]), fh(x["singles_s"]), fh(x["singles_i"]))
+    except Exception:
+        return None
+    finally:
+        if os.path.exists(tmp):
+            os.remove(tmp)
+    a, b = vals.get("simpson2000"), vals.get("gl300")
+    if not a or not b or not all(finite(v) and v > 0 for v in a + b):
+        return None
+    if any(abs(x - y) > 1e-2 * max(x, y) for x, y in zip(a, b)):
+        return None
+    return a
+
+
 def oracle_pw(ctx, o):
     s = o["setup"]
     ctx.seen(("pw", s["config"], o["ws"], o["wi"]))
@@ -240,6 +279,19 @@ def oracle_pw(ctx, o):
     if c < 0 or ss < 0 or si < 0:
         ctx.violation("S5", f"negative spectral intensity ({s['family']}): jsi={c!r}, singles={ss!r}/{si!r}", dict(setup_sig(s), kind="pw_negative"), rep)
         return
+    if (c > ss * (1 + REL_SLACK) or c > si * (1 + REL_SLACK)) and not o["tag"].startswith("corpus:"):
+        # the property presupposes a CONVERGED longitudinal integration: if much finer rules agree with each other, satisfy the
+        # inequality and differ from this observation by more than 5 %, the observation is a quadrature artefact of a far-detuned
+        # pair (e.g. walk-off many pump waists long), not a statement about the two closed forms
+        fine = refine(ctx, o)
+        if fine is not None and fine[0] <= fine[1] * (1 + REL_SLACK) and fine[0] <= fine[2] * (1 + REL_SLACK) \
+                and any(abs(x - y) > 5e-2 * max(x, y) for x, y in zip((c, ss, si), fine)):
+            ctx.count("pw:not_converged:" + s["family"])
+            if not getattr(ctx, "noted_nonconv", False):
+                ctx.noted_nonconv = True
+                ctx.note(f"{o['integrator'].get('method')} is not converged at omega_s={fh(o['ws'])!r}, omega_i={fh(o['wi'])!r} of a {s['family']} setup "
+                         f"(jsi {c!r} vs {fine[0]!r} with Simpson{{2000}}); converged values satisfy the inequality (ratios {fine[0]/fine[1]:.4f}, {fine[0]/fine[2]:.4f})")
+            return
     for which, v in (("signal", ss), ("idler", si)):
         if c > v * (1 + REL_SLACK):
             cause, extra = classify(ctx, o, which)
@@ -407,7 +459,7 @@ def run(ctx):
         ctx.proof_failures.append(("Gen/Efficiencies.v", "translator", m))
     proved = (not msgs) and prove(ctx, "C08", extra_targets=["Proofs/C08_tac.vo"] + ([] if ctx.tier == "quick" else ["Proofs/PMCaseTac.vo"]))
     if proved:   # the refuted lemmas live outside the property's obligations: a failure here is only noted
-        okf, _, _ = coq_build(ctx, ["Findings/C08_singles_branch.vo", "Findings/C08_symmetric_overflow.vo"])
+        okf, _, _ = coq_build(ctx, ["Findings/C08_singles_branch.vo"])
         if not okf:
             ctx.note("a Findings/C08_*.v file no longer compiles against the regenerated model")
     quick = ctx.tier == "quick"
@@ -463,7 +515,7 @@ def run(ctx):
                        "along the anti-diagonal within +-1.5 phase-matching lobes and random pairs inside the pump envelope; limit: the same "
                        "families collinear with waists 1-3 mm; distinct = distinct (config, frequency bits)")
     ctx.cov["clauses"] = {
-        "efficiency formulas and zero guards": "proved on the generated function (values, and that no division by zero / sqrt of a negative is performed) + interval correspondence + bitwise IEEE mirror",
+        "efficiency formulas and zero guards": "proved on the generated function (symmetric = C/(sqrt Rs sqrt Ri) = C/sqrt(Rs Ri) for non-negative rates) (values, and that no division by zero / sqrt of a negative is performed) + interval correspondence + bitwise IEEE mirror",
         "C <= Rs and C <= Ri => efficiencies in [0,1]": "proved",
         "rates non-negative": "proved (sums of non-negative terms; spectra non-negative for physical setups)",
         "eta, F, R in (0,1], F = R = 1 without walk-off": "proved (Coquelicot RInt; existence of the iterated integral included)",
